@@ -123,14 +123,25 @@ def bridge_registers(rep, idx):
     rep.analysed(site)
     if not require_supported(rep, "C01.3", c):
         return
-    loops = [L for L in c.t.loops.values() if c.norm(L.iter) == c.parse("self.bus.memory_map.resources()")]
+    RES = c.parse("self.bus.memory_map.resources()")
+    loops = [L for L in c.t.loops.values() if c.norm(L.iter) == RES or (L.seq is not None and c.norm(L.seq) == RES)]
+    # loops that only compute names (a comprehension over the same resources) register nothing
+    loops = [L for L in loops if any(('for', L.id) in gen for _, v, gen, _ in c.t.submodules)] or loops
     if len(loops) != 1:
         rep.unk("C01.3", site, "csr.Bridge: loop over the resources of the published map", f"found {len(loops)} such loops")
         return
     L = loops[0]
-    reg = ('item', L.id, (0,))
-    hits = [(v, gen) for _, v, gen, _ in c.t.submodules if c.norm(v) == reg]
+    regs = [('item', L.id, (0,)), c.norm(('sub', ('sub', L.seq, ('idx', L.id)), ('const', 0))) if L.seq is not None else None,
+            ('item', L.id, (1, 0))]
+    hits = [(v, gen) for _, v, gen, _ in c.t.submodules if c.norm(v) in regs]
     ok = any(tuple(fr for fr in gen) == (('for', L.id),) for v, gen in hits)
+    if not ok:
+        # registered in both arms of one generation-time choice (two naming schemes): still every register, always
+        arms = {}
+        for v, gen in hits:
+            if len(gen) == 2 and gen[0] == ('for', L.id) and gen[1][0] == 'pyif':
+                arms.setdefault(ir.show(c.norm(gen[1][1])), set()).add(gen[1][2])
+        ok = any(pols == {True, False} for pols in arms.values())
     rep.check(ok, "C01.3", site, "csr.Bridge: every register of the published map is a submodule, unconditionally",
               f"submodule registrations of the loop element: {[[ir.show(fr[1]) if fr[0] == 'pyif' else fr for fr in gen] for v, gen in hits]}")
 
